@@ -510,3 +510,202 @@ func ssaParamReaches(fn *ssa.Function, j int, isTarget func(name string) bool, a
 	}
 	return false
 }
+
+// droppedErrors: calls in fn whose error result nobody looks at (no use of the value: not tested,
+// returned, wrapped, logged or passed on). Deferred calls and calls in go statements are separate
+// instructions and are not listed.
+func droppedErrors(fn *ssa.Function) []*ssa.Call {
+	var out []*ssa.Call
+	errT := types.Universe.Lookup("error").Type()
+	for _, b := range fn.Blocks {
+		for _, in := range b.Instrs {
+			call, ok := in.(*ssa.Call)
+			if !ok {
+				continue
+			}
+			res := call.Call.Signature().Results()
+			if res.Len() == 0 {
+				continue
+			}
+			last := res.At(res.Len() - 1).Type()
+			if !types.Identical(last, errT) {
+				continue
+			}
+			used := false
+			refs := call.Referrers()
+			if res.Len() == 1 {
+				used = refs != nil && anyLiveUse(*refs)
+			} else if refs != nil {
+				for _, r := range *refs {
+					if ex, isEx := r.(*ssa.Extract); isEx && ex.Index == res.Len()-1 {
+						if er := ex.Referrers(); er != nil && anyLiveUse(*er) {
+							used = true
+						}
+					}
+				}
+			}
+			if !used {
+				out = append(out, call)
+			}
+		}
+	}
+	return out
+}
+
+// anyLiveUse: some referrer of an error value looks at it. A store into a variable cell (a
+// variable captured by a closure lives in a cell) is a use only if the cell can be loaded before
+// it is overwritten: `res, err := do(); x, err = next()` with err captured stores the first
+// error and overwrites it unseen.
+func anyLiveUse(refs []ssa.Instruction) bool {
+	for _, r := range refs {
+		switch x := r.(type) {
+		case *ssa.DebugRef:
+			continue
+		case *ssa.Store:
+			if !deadStore(x) {
+				return true
+			}
+		default:
+			return true
+		}
+	}
+	return false
+}
+
+// deadStore: the stored cell is a local variable cell whose every access is visible (loads,
+// stores, captures), no capturing closure loads it before storing it, and on every way on from
+// the store the cell is overwritten, or the function that owns the cell ends, before any load.
+func deadStore(st *ssa.Store) bool {
+	var cellRefs *[]ssa.Instruction
+	owner := false // the store is in the function that owns the cell: at its end the cell dies (unless captured by a reader)
+	switch a := st.Addr.(type) {
+	case *ssa.Alloc:
+		cellRefs, owner = a.Referrers(), true
+	case *ssa.FreeVar:
+		cellRefs = a.Referrers()
+	default:
+		return false
+	}
+	if cellRefs == nil {
+		return false
+	}
+	for _, r := range *cellRefs {
+		switch x := r.(type) {
+		case *ssa.Store:
+			if x.Addr != st.Addr {
+				return false // the address itself is stored somewhere
+			}
+		case *ssa.UnOp, *ssa.DebugRef:
+		case *ssa.MakeClosure:
+			cf, _ := x.Fn.(*ssa.Function)
+			if cf == nil {
+				return false
+			}
+			for i, b := range x.Bindings {
+				if b == st.Addr && (i >= len(cf.FreeVars) || closureLoadsFirst(cf, cf.FreeVars[i], 0)) {
+					return false
+				}
+			}
+		default:
+			return false
+		}
+	}
+	// forward from the store
+	seen := map[*ssa.BasicBlock]bool{}
+	var walk func(b *ssa.BasicBlock, from int) bool // true: a load is reached
+	walk = func(b *ssa.BasicBlock, from int) bool {
+		for i := from; i < len(b.Instrs); i++ {
+			switch x := b.Instrs[i].(type) {
+			case *ssa.UnOp:
+				if x.Op == token.MUL && x.X == st.Addr {
+					return true
+				}
+			case *ssa.Store:
+				if x.Addr == st.Addr {
+					return false
+				}
+			case *ssa.Return, *ssa.Panic:
+				return !owner // a captured variable outlives the closure that stored it
+			}
+		}
+		for _, s := range b.Succs {
+			if seen[s] {
+				continue
+			}
+			seen[s] = true
+			if walk(s, 0) {
+				return true
+			}
+		}
+		return false
+	}
+	idx := -1
+	for i, in := range st.Block().Instrs {
+		if in == ssa.Instruction(st) {
+			idx = i
+		}
+	}
+	if idx < 0 {
+		return false
+	}
+	return !walk(st.Block(), idx+1)
+}
+
+// closureLoadsFirst: on some way from the closure's entry the captured cell is loaded (or
+// handed on) before the closure stores it.
+func closureLoadsFirst(fn *ssa.Function, fv *ssa.FreeVar, depth int) bool {
+	refs := fv.Referrers()
+	if refs == nil {
+		return false
+	}
+	for _, r := range *refs {
+		switch x := r.(type) {
+		case *ssa.Store:
+			if x.Addr != ssa.Value(fv) {
+				return true
+			}
+		case *ssa.UnOp, *ssa.DebugRef:
+		case *ssa.MakeClosure:
+			cf, _ := x.Fn.(*ssa.Function)
+			if cf == nil || depth > 2 {
+				return true
+			}
+			for i, b := range x.Bindings {
+				if b == ssa.Value(fv) && (i >= len(cf.FreeVars) || closureLoadsFirst(cf, cf.FreeVars[i], depth+1)) {
+					return true
+				}
+			}
+		default:
+			return true
+		}
+	}
+	if len(fn.Blocks) == 0 {
+		return true
+	}
+	seen := map[*ssa.BasicBlock]bool{fn.Blocks[0]: true}
+	var walk func(b *ssa.BasicBlock) bool
+	walk = func(b *ssa.BasicBlock) bool {
+		for _, in := range b.Instrs {
+			switch x := in.(type) {
+			case *ssa.UnOp:
+				if x.Op == token.MUL && x.X == ssa.Value(fv) {
+					return true
+				}
+			case *ssa.Store:
+				if x.Addr == ssa.Value(fv) {
+					return false
+				}
+			}
+		}
+		for _, s := range b.Succs {
+			if !seen[s] {
+				seen[s] = true
+				if walk(s) {
+					return true
+				}
+			}
+		}
+		return false
+	}
+	return walk(fn.Blocks[0])
+}
